@@ -244,18 +244,26 @@ def rule_derived(ck, rid="C11.R5"):
             raise AnalysisError(f"get_last_timestamp: reduction idiom not recognised: {src(e)}")
         c = calls[0]
         is_max = call_name(c) == "max"
-        comp0 = False
+        comp0 = None            # True: component 0; False: recognised and another quantity; None: shape not recognised
         key = [k.value for k in c.keywords if k.arg == "key"]
-        if key and isinstance(key[0], ast.Lambda) and isinstance(key[0].body, ast.Subscript) and canon(key[0].body.slice) == "0" \
-                and isinstance(e, ast.Subscript) and canon(e.slice) == "0":
-            comp0 = True
+        if key and isinstance(key[0], ast.Lambda) and isinstance(key[0].body, ast.Subscript) and isinstance(key[0].body.slice, ast.Constant) \
+                and isinstance(e, ast.Subscript) and isinstance(e.slice, ast.Constant):
+            comp0 = canon(key[0].body.slice) == "0" and canon(e.slice) == "0"
+        elif key and call_name(key[0]) == "itemgetter" and len(key[0].args) == 1 and isinstance(key[0].args[0], ast.Constant) \
+                and isinstance(e, ast.Subscript) and isinstance(e.slice, ast.Constant):
+            comp0 = key[0].args[0].value == 0 and canon(e.slice) == "0"
+        elif not key and c.args and canon(c.args[0]) == "self._queue" and isinstance(e, ast.Subscript) and isinstance(e.slice, ast.Constant):
+            comp0 = False if canon(e.slice) != "0" else None        # max of (timestamp, event) pairs compares events on ties: raises or wrong
         if c.args and isinstance(c.args[0], (ast.GeneratorExp, ast.ListComp)):
             g = c.args[0]
             tgt = g.generators[0].target
-            if isinstance(g.elt, ast.Subscript) and canon(g.elt.slice) == "0":
-                comp0 = True
-            if isinstance(tgt, ast.Tuple) and isinstance(g.elt, ast.Name) and isinstance(tgt.elts[0], ast.Name) and tgt.elts[0].id == g.elt.id:
-                comp0 = True
+            if isinstance(g.elt, ast.Subscript) and isinstance(g.elt.slice, ast.Constant) and isinstance(g.elt.value, ast.Name) \
+                    and isinstance(tgt, ast.Name) and tgt.id == g.elt.value.id:
+                comp0 = canon(g.elt.slice) == "0"
+            if isinstance(tgt, ast.Tuple) and isinstance(g.elt, ast.Name) and all(isinstance(x, ast.Name) for x in tgt.elts) and g.elt.id in [x.id for x in tgt.elts]:
+                comp0 = tgt.elts[0].id == g.elt.id
+        if is_max and comp0 is None:
+            raise AnalysisError(f"get_last_timestamp: which component the maximum is taken over is not recognised: {src(e)[:120]}")
         guarded = any(isinstance(a, ast.Call) and canon(a) == "self.empty()" and not t for a, t in facts_at(fl, r)) or \
             any(canon(a) in ("self._queue",) and t for a, t in facts_at(fl, r))
         ck.require(is_max and comp0, rid, glt, r.expr, ok="maximum over the timestamp component",
